@@ -1,6 +1,6 @@
 """C08 — export lookups agree with the export tables for every table shape."""
 import re
-from . import gen_exports
+from . import gen_exports, gen_img
 from .props import Prop, spec_field, klass
 
 REF = re.compile(r"@(\d+:\d+|static)")
@@ -118,7 +118,7 @@ class C08(Prop):
     pid = "C08"
     title = "export lookups agree with the export tables for every table shape"
     thm_modules = ["PeliteModel.Thm.C08", "PeliteModel.Thm.ImageLayout", "PeliteModel.Thm.C08Layout", "PeliteModel.Thm.Witnesses64"]
-    gens = [gen_exports.gen_exports_corpus, gen_exports.gen_exports_shapes, gen_exports.gen_exports_big, gen_exports.gen_exports_nulltables, gen_exports.gen_exports]
+    gens = [gen_exports.gen_exports_corpus, gen_exports.gen_exports_shapes, gen_exports.gen_exports_big, gen_exports.gen_exports_nulltables, gen_exports.gen_exports, gen_img.module_twin_cases(gen_exports.gen_exports)]
 
     def oracle(self, op, impl, model, spec):
         k = klass(impl)
